@@ -55,11 +55,27 @@ def power(x1: PolyLike, x2: PolyLike, **kwargs: Any) -> ndpoly:
 
     """
     x1 = numpoly.aspolynomial(x1)
-    x2 = numpoly.aspolynomial(x2).tonumpy().astype(int)
+    # the result type follows numpy's promotion of base and exponent (Python
+    # numbers adapt to the base, arrays and numpy scalars count)
+    if isinstance(x2, (int, float, complex)):
+        probe = x2
+    else:
+        probe = numpy.empty(0, dtype=numpoly.aspolynomial(x2).dtype)
+    dtype = numpy.power(numpy.empty(0, dtype=x1.dtype), probe).dtype
+    exponents = numpoly.aspolynomial(x2).tonumpy()
+
+    if numpy.any(exponents < 0) or numpy.any(exponents != numpy.rint(exponents.real)):
+        # negative or fractional powers only exist for numbers
+        if not x1.isconstant():
+            raise numpoly.FeatureNotSupported(
+                "only non-negative integer powers of polynomials are polynomials"
+            )
+        return numpoly.polynomial(numpy.power(x1.tonumpy(), exponents, **kwargs))
+    x2 = exponents.real.astype(int)
 
     if not x2.shape:
         out = numpoly.ndpoly.from_attributes(
-            [(0,)], [numpy.ones(x1.shape, dtype=x1._dtype)], x1.names[:1]
+            [(0,)], [numpy.ones(x1.shape, dtype=dtype)], x1.names[:1]
         )
         for _ in range(x2.item()):
             out = numpoly.multiply(out, x1, **kwargs)
@@ -69,7 +85,11 @@ def power(x1: PolyLike, x2: PolyLike, **kwargs: Any) -> ndpoly:
         # in numpy's broadcast shape.
         shape = numpy.broadcast_shapes(x1.shape, x2.shape)
         x2 = numpy.broadcast_to(x2, shape)
-        out = numpoly.zeros(shape, dtype=x1._dtype)
+        out = numpoly.zeros(shape, dtype=dtype)
         for exponent in numpy.unique(x2):
-            out = numpoly.where(x2 == exponent, power(x1, exponent, **kwargs), out)
+            out = numpoly.where(
+                x2 == exponent,
+                power(x1.astype(dtype), int(exponent), **kwargs),
+                out,
+            )
     return numpoly.polynomial(out)
